@@ -4,6 +4,9 @@ Kernel functions verified for all inputs:
   TimeTriggeredPlanValidator._states_in_interval   which states of the trace a condition over a
       (possibly left-open) interval must be evaluated in
   TimeTriggeredPlanValidator._instantiate_timing / _instantiate_interval   (arithmetic)
+  binary_search_closest_lower   the greatest recorded time strictly below the target (None iff there is none), for every sorted list:
+      it selects the pre-state in which an action cost is evaluated
+  _extract_makespan   at least every action end, every from-start timed-effect delay and every timed-goal bound, and equal to one of them or 0
 """
 import z3
 from fractions import Fraction
@@ -283,7 +286,55 @@ class InstantiateInterval(Unit):
         st.oblige("left-open flag", zbool(op) == B.field_uf(eng, st, iv, "_is_left_open").z)
 
 
-UNITS = [StatesInInterval(), InstantiateTiming(), InstantiateInterval()]
+class BinarySearchClosestLower(Unit):
+    prop = "C05"
+    name = "binary_search_closest_lower"
+    doc = "on an ascending list: the greatest element strictly below the target, None iff no element is below it"
+
+    def target(self):
+        return pv.binary_search_closest_lower
+
+    def configure(self, eng):
+        QNB = "unified_planning.engines.plan_validator.binary_search_closest_lower"
+
+        def inv(L):
+            xs = self._xs
+            left, right = zint(L.left), zint(L.right)
+            t = L.target_time.z
+            j = z3.Int(fresh_name("j"))
+            res = L.result
+            rn = res.is_none().z if isinstance(res, SUnion) else z3.BoolVal(res is None)
+            rv = res.some().z if isinstance(res, SUnion) else (zreal(res) if res is not None else z3.RealVal(0))
+            return [("window inside the list", z3.And(0 <= left, left <= right + 1, right < xs.n)),
+                    ("everything left of the window is below the target", z3.ForAll([j], z3.Implies(z3.And(0 <= j, j < left), z3.Select(xs.arr, j) < t))),
+                    ("everything right of the window is not below the target", z3.ForAll([j], z3.Implies(z3.And(right < j, j < xs.n), z3.Select(xs.arr, j) >= t))),
+                    ("result is the last element left of the window (None when there is none)",
+                     z3.If(left == 0, rn, z3.And(z3.Not(rn), rv == z3.Select(xs.arr, left - 1))))]
+        eng.loops[(QNB, 0)] = LoopSpec(inv, modifies=["left", "right", "mid", "result"], types={"result": Opt(Real)})
+
+    def setup(self, eng, st):
+        xs = eng.fresh_of(st, Seq(Real), "sorted_times")
+        self._xs = xs
+        a, b = z3.Int(fresh_name("a")), z3.Int(fresh_name("b"))
+        st.assume(z3.ForAll([a, b], z3.Implies(z3.And(0 <= a, a < b, b < xs.n), z3.Select(xs.arr, a) <= z3.Select(xs.arr, b))))
+        t = Real.fresh("target_time")
+        return [t, st.alloc(xs, "list")], {}, dict(xs=xs, t=t)
+
+    def post(self, eng, ctx, st, out):
+        if out[0] != "return":
+            return
+        xs, t = ctx["xs"], ctx["t"].z
+        r = out[1]
+        rn = r.is_none().z if isinstance(r, SUnion) else z3.BoolVal(r is None)
+        rv = r.some().z if isinstance(r, SUnion) else (zreal(r) if r is not None else z3.RealVal(0))
+        j = z3.Int(fresh_name("j"))
+        st.oblige("None iff no element is below the target", rn == z3.Not(z3.Exists([j], z3.And(0 <= j, j < xs.n, z3.Select(xs.arr, j) < t))))
+        st.oblige("otherwise an element of the list below the target ...",
+                  z3.Implies(z3.Not(rn), z3.And(rv < t, z3.Exists([j], z3.And(0 <= j, j < xs.n, z3.Select(xs.arr, j) == rv)))))
+        st.oblige("... and no element below the target is greater", z3.Implies(z3.Not(rn), z3.ForAll([j], z3.Implies(z3.And(0 <= j, j < xs.n, z3.Select(xs.arr, j) < t), z3.Select(xs.arr, j) <= rv))))
+
+
+UNITS = [StatesInInterval(), InstantiateTiming(), InstantiateInterval(), BinarySearchClosestLower()]
 LEVEL = "other"
 EXPLANATION = __doc__
 TRUSTED = ["trace keys are -1 (initial state) and non-negative event times; start >= 0; end is None or >= start "
